@@ -93,3 +93,24 @@ def split(spec):
             'witness': {'inputs': {'value': v['value']},
                         'detail': 'expected parts %r, observed %r' % (v['expected'], v['observed'])}})
     return out
+
+
+def reject(spec):
+    """C11: "compiling it raises an exception derived from TemplateError ... A template without such an
+    error is never rejected" -- over the B-VERBATIM document catalogue no document makes the compiler
+    fail with anything but a TemplateError (the bare KeyError for an undeclared namespace prefix is the
+    one documented exception and is not counted)"""
+    t0 = time.time()
+    maxlen = 3 if spec.get('tier') != 'thorough' else 4
+    r = _run('verbatim.py', [REPO, maxlen, spec.get('seed', 0)])
+    out = {'unit': 'B-REJECT', 'obligations': [], 'wall': time.time() - t0,
+           'bounded': [{'id': 'B-REJECT', 'function': 'tokenize.iter_xml o parser.ElementParser o program builder',
+                        'bound': r['bound'] + ' + tag soup', 'cases': r['cases'], 'distinct': r['distinct']}]}
+    bad = r.get('unexpected_crashes') or []
+    if bad:
+        out['obligations'].append({
+            'name': 'B-REJECT', 'expect': 'valid', 'status': 'failed', 'backend': 'bounded',
+            'time': 0.0, 'okind': 'bounded', 'tried': 'enumeration', 'confirmed': True,
+            'text': 'a document is compiled or rejected with a TemplateError, never with another exception',
+            'witness': {'inputs': {'body': bad[0][0]}, 'detail': 'compiling raises %s' % bad[0][1]}})
+    return out
